@@ -544,12 +544,41 @@ func ruleC20_4(c *Ctx) {
 	}
 	if f := c.lookup("cmd.loadKeyFromDisk"); f != nil {
 		okKey, okCert := false, false
+		// load sites: key.LoadKeyDefaults(path) directly, or a call of an unexported helper whose nil result guarantees
+		// a successful LoadKeyDefaults(first, second) on two of its parameters
+		type loadSite struct {
+			call       ssa.CallInstruction
+			recv, path string
+		}
+		var sites []loadSite
 		for _, call := range callsIn(f, "(*in_toto.Key).LoadKeyDefaults") {
 			a := call.Common().Args
-			if org(a[0]) == "global(cmd.key)" && org(a[1]) == "global(cmd.keyPath)" {
+			sites = append(sites, loadSite{call, org(a[0]), org(a[1])})
+		}
+		for _, via := range allCalls(f) {
+			g := via.Common().StaticCallee()
+			if g == nil || g.Blocks == nil || g.Pkg != f.Pkg || g == f || (g.Object() != nil && g.Object().Exported()) || !hasErrResult(via) {
+				continue
+			}
+			for _, inner := range callsIn(g, "(*in_toto.Key).LoadKeyDefaults") {
+				if !c.helperGuarantees(g, inner) {
+					continue
+				}
+				ia := inner.Common().Args
+				p0, ok0 := resolve(ia[0], inner).(*ssa.Parameter)
+				p1, ok1 := resolve(ia[1], inner).(*ssa.Parameter)
+				if ok0 && ok1 && p0.Parent() == g && p1.Parent() == g {
+					va := via.Common().Args
+					sites = append(sites, loadSite{via, org(va[paramIndex(p0)]), org(va[paramIndex(p1)])})
+				}
+			}
+		}
+		for _, site := range sites {
+			call := site.call
+			if site.recv == "global(cmd.key)" && site.path == "global(cmd.keyPath)" {
 				okKey = true
 			}
-			if org(a[0]) == "global(cmd.cert)" && org(a[1]) == "global(cmd.certPath)" {
+			if site.recv == "global(cmd.cert)" && site.path == "global(cmd.certPath)" {
 				for _, b := range f.Blocks {
 					for _, in := range b.Instrs {
 						if st, ok := in.(*ssa.Store); ok && org(st.Addr) == "global(cmd.key).KeyVal.Certificate" && org(st.Val) == "global(cmd.cert).KeyVal.Certificate" && c.okCallAt(call, st.Block()) {
